@@ -1,4 +1,4 @@
-#!/usr/bin/env python3
+#!/usr/bin/env python3-vt
 """Generates MANIFEST.json from rules/*.py metadata (run after adding/removing a check)."""
 import importlib
 import json
@@ -13,9 +13,9 @@ checks = []
 na = []
 for p in props:
     pid = p["id"]
-    try:
-        mod = importlib.import_module("rules." + pid)
-    except ModuleNotFoundError:
+    if os.path.exists(os.path.join(VERIF, "rules", pid + ".py")):
+        mod = importlib.import_module("rules." + pid)   # import errors must surface
+    else:
         mod = None
     if mod is None or getattr(mod, "NOT_APPLICABLE", None):
         na.append({"property_id": pid, "reason": getattr(mod, "NOT_APPLICABLE", "check under construction in this round (see DESIGN.md section 3)")})
